@@ -387,6 +387,27 @@ pub fn run(ctx: &Ctx) {
                 if let Ok(true) = guarded(|| SigningKey::from_keypair_bytes(&kp).is_ok()) {
                     ctx.violation("sig.from_keypair_bytes", "accepts a foreign public half", json!({"kind": "keypair", "bytes": hex(&kp)}));
                 }
+                // the same halves (half of them are not encodings of any curve point) through the PKCS#8 structure
+                // and through a PKCS#8 v2 document
+                {
+                    use ed25519_dalek::pkcs8::{DecodePrivateKey, EncodePrivateKey, KeypairBytes, PublicKeyBytes};
+                    let mut ph = [0u8; 32];
+                    ph.copy_from_slice(&kp[32..]);
+                    let r = guarded(|| {
+                        let kb = KeypairBytes { secret_key: *s, public_key: Some(PublicKeyBytes(ph)) };
+                        let direct = SigningKey::try_from(&kb).is_ok();
+                        let via_der = kb.to_pkcs8_der().ok().map(|d| SigningKey::from_pkcs8_der(d.as_bytes()).is_ok());
+                        (direct, via_der)
+                    });
+                    match r {
+                        Ok((direct, via_der)) => {
+                            if direct || via_der == Some(true) {
+                                ctx.violation("sig.pkcs8.KeypairBytes", &format!("accepts a foreign public half (direct: {}, through a DER document: {:?})", direct, via_der), json!({"kind": "keypair_pkcs8", "bytes": hex(&kp)}));
+                            }
+                        }
+                        Err(e) => ctx.violation("sig.pkcs8.KeypairBytes", &format!("panic: {}", e), json!({"kind": "keypair_pkcs8", "bytes": hex(&kp)})),
+                    }
+                }
             }
         }
     }
